@@ -324,3 +324,6 @@ def _sack_premise(rep: Report, prog: Program, tier: str) -> None:
     from .common import import_rules
     import_rules(rep, prog, tier, "C05", "C05-SACK", "C02", ["C02-LEAK"],
                  "a nonsensical SACK (acknowledging TSNs never assigned) is ignored and the sender keeps working afterwards (rule C02-LEAK)", 3)
+    import_rules(rep, prog, tier, "C05", "C05-STATE", "C02", ["C02-REINIT", "C02-SETUP", "C02-LOOP"],
+                 "handshake chunks arriving in a state they do not belong to change nothing (rules C02-REINIT, C02-SETUP); under duplication the receiver reports each duplicate once and its "
+                 "bookkeeping does not grow (rule C02-LOOP)", 20)
